@@ -299,3 +299,26 @@ Definition sh_release (S : list st) : list st * list ev :=
     let R := map do_release S in (map (fun x => fst (fst x)) R, concat (map snd R)).
 
 End WithPageSize.
+
+(* ---- two resources with their own page allocators / upstreams: a = std::move(b) ----
+   A configured resource = (state, page allocator id); the upstream id is the `up` field.  operator=(&&)
+   exchanges members; which ones is read off the source (one Gen.move_swaps_<member> per std::swap line).  A member
+   that is assigned instead of swapped leaves the moved-from object with its old value. *)
+Definition rsrc : Type := (st * Z)%type.
+
+Definition move_swaps_contents : bool :=
+  Z.eqb (move_swaps_last_page_array * move_swaps_last_page_pointer * move_swaps_free_begin * move_swaps_free_end *
+         move_swaps_space_used * move_swaps_space_allocated * move_swaps_last_oversize_page_array *
+         move_swaps_last_oversize_page_pointer * move_swaps_last_destroy_task_array *
+         move_swaps_last_destroy_task_pointer) 1.
+
+(* (a, b) after `a = std::move(b)` *)
+Definition move_assign (a b : rsrc) : rsrc * rsrc :=
+  if move_swaps_contents then
+    ((set_up (fst b) (up (fst b)), snd b),
+     (set_up (fst a) (if Z.eqb move_swaps_upstream 1 then up (fst a) else up (fst b)),
+      if Z.eqb move_swaps_page_allocator 1 then snd a else snd b))
+  else (a, b).
+
+(* release() of a configured resource: (page allocator the page batches go to, events; EUpFree carries the upstream) *)
+Definition release_to (r : rsrc) : Z * list ev := (snd r, snd (do_release (fst r))).
